@@ -16,6 +16,7 @@ from symcheck.runner import Shard, run_shards
 VERIF = os.path.dirname(os.path.dirname(os.path.abspath(__file__)))
 
 HARNESS_MODULES = {
+    'C01': ['c01_roundtrip'],
     'C02': ['c02_errors'],
     'C03': ['framing:shards_c03'],
     'C04': ['framing:shards_c04'],
